@@ -331,6 +331,16 @@ impl World {
 		v.sort();
 		v
 	}
+	/// inputs / outputs of the aggregate of a set of atoms (after cut-through), from the MODEL's universe
+	fn ins_outs(&self, parts: &[u64]) -> (BTreeSet<u64>, BTreeSet<u64>) {
+		let mut i = BTreeSet::new();
+		let mut o = BTreeSet::new();
+		for a in parts.iter().filter_map(|a| self.atoms.get(a)) {
+			i.extend(a.ins.iter().cloned());
+			o.extend(a.outs.iter().cloned());
+		}
+		(i.difference(&o).cloned().collect(), o.difference(&i).cloned().collect())
+	}
 	/// minimum-fee rule evaluated from the MODEL's fee fields (independent of Transaction::shifted_fee)
 	fn underpaid(&self, tx: &Transaction, base: u64) -> bool {
 		let ids = self.ids_of(tx);
@@ -371,6 +381,7 @@ fn template(work: &str, trunk: u64) -> String {
 			let rw = reward_for(0, h, 0);
 			let mut b = Block::new(&prev, &[], Difficulty::from_num(100), rw).unwrap();
 			b.header.timestamp = prev.timestamp + Duration::seconds(60);
+			b.header.pow.nonce = next_nonce();
 			c.set_txhashset_roots(&mut b).unwrap();
 			c.process_block(b, Options::SKIP_POW).unwrap();
 		}
@@ -406,8 +417,15 @@ struct Node {
 	accepted_cands: HashSet<Hash>,
 	last_mine_key: Option<(Hash, Vec<Vec<u64>>)>,
 	blocks_made: u64,
+	pending: Option<(Vec<u64>, Block)>,
 	mine_weight: u64,
 	fee_base: u64,
+}
+
+/// Fresh nonce per block (mine_block.rs sets a random one); note that BlockHeader::hash() covers the proof only.
+fn next_nonce() -> u64 {
+	static N: std::sync::atomic::AtomicU64 = std::sync::atomic::AtomicU64::new(1);
+	N.fetch_add(1, std::sync::atomic::Ordering::SeqCst)
 }
 
 fn body_weight(b: &Block) -> u64 {
@@ -512,6 +530,10 @@ fn real_checks(w: &World, n: &mut Node, step: usize, after: &str, mism: &mut Vec
 							bad = Some(format!("over_block_weight:{}", wt));
 						} else {
 							b.header.timestamp = head.timestamp + Duration::seconds(30);
+							b.header.pow.nonce = next_nonce();
+							// Block::from_reward leaves the all-zero proof and the header hash covers the proof only:
+							// without this every candidate would have the same hash (Block::new does the same)
+							b.header.pow.proof = pow::Proof::random(global::proofsize());
 							match n.chain.set_txhashset_roots(&mut b) {
 								Err(e) => {
 									if std::env::var("VERIF_DEBUG").is_ok() {
@@ -527,8 +549,12 @@ fn real_checks(w: &World, n: &mut Node, step: usize, after: &str, mism: &mut Vec
 								Ok(()) => {
 									let h = b.hash();
 									if !n.accepted_cands.contains(&h) {
+										let dbg_h = b.header.height;
 										match n.twin.process_block(b, Options::SKIP_POW) {
-											Ok(_) => {
+											Ok(t) => {
+												if std::env::var("VERIF_DEBUG").is_ok() {
+													eprintln!("twin accepted cand at height {} -> {:?}; twin head {:?}; main head {:?}", dbg_h, t.map(|x| x.height), n.twin.head().map(|x| (x.height, x.total_difficulty.to_num())), n.chain.head().map(|x| (x.height, x.total_difficulty.to_num())));
+												}
 												n.accepted_cands.insert(h);
 											}
 											Err(e) => bad = Some(format!("process_block:{:?}", e)),
@@ -611,6 +637,7 @@ fn replay_one(beh: &Value, work: &str, idx: usize) -> Value {
 		accepted_cands: HashSet::new(),
 		last_mine_key: None,
 		blocks_made: 0,
+		pending: None,
 		mine_weight,
 		fee_base,
 	};
@@ -635,6 +662,7 @@ fn replay_one(beh: &Value, work: &str, idx: usize) -> Value {
 				let tx = w.tx_of(&parts);
 				let header = n.chain.head_header().unwrap();
 				let before = n.pool.txpool.size();
+				let pre_real = ids_json(&w, &n.pool.txpool.all_transactions());
 				let r = catch_unwind(AssertUnwindSafe(|| {
 					n.pool.add_to_pool(TxSource::Broadcast, tx.clone(), stem, &header)
 				}));
@@ -677,6 +705,27 @@ fn replay_one(beh: &Value, work: &str, idx: usize) -> Value {
 						}
 					}
 				}
+				// an eviction on the real side, judged structurally (needed once the behaviour has legally
+				// diverged from the model: the victim must have no dependant in the txpool or the stempool)
+				if diverged.is_some() && res == "ok_fluff" && before > cfg["maxpool"].as_u64().unwrap() as usize {
+					let admitted: Vec<u64> = evs.last().map(|(_, ids)| ids.clone()).unwrap_or(parts.clone());
+					let mut pre = pre_real.clone();
+					pre.push(admitted);
+					let tp = ids_json(&w, &n.pool.txpool.all_transactions());
+					let sp = ids_json(&w, &n.pool.stempool.all_transactions());
+					let gone: Vec<Vec<u64>> = pre.iter().filter(|e| !tp.contains(e)).cloned().collect();
+					if gone.len() == 1 {
+						let (_, vouts) = w.ins_outs(&gone[0]);
+						let dep = |y: &Vec<u64>| w.ins_outs(y).0.intersection(&vouts).next().is_some();
+						if tp.iter().any(|y| dep(y)) {
+							mism.push(json!({"step": i, "what": "evict_victim_has_dependants", "victim": gone[0],
+								"pre": pre, "observed": tp, "after_divergence": true}));
+						} else if sp.iter().any(|y| dep(y)) {
+							mism.push(json!({"step": i, "what": "evict_stempool_dependant_left", "victim": gone[0],
+								"stempool": sp, "after_divergence": true}));
+						}
+					}
+				}
 				if diverged.is_none() {
 					if res != s["res"].as_str().unwrap() {
 						mism.push(json!({"step": i, "what": "result", "k": k, "t": parts, "stem": stem, "why": s["why"],
@@ -706,6 +755,41 @@ fn replay_one(beh: &Value, work: &str, idx: usize) -> Value {
 					}
 				}
 			}
+			"Header" => {
+				// header-first propagation: only the header of the next block reaches the chain
+				let atoms = sets_of(&s["bs"]).pop().unwrap_or_default();
+				let prev = n.chain.head_header().unwrap();
+				let txs: Vec<Transaction> = atoms.iter().map(|a| w.txs[a].clone()).collect();
+				let fees: u64 = txs.iter().map(|t| t.fee()).sum();
+				n.blocks_made += 1;
+				let rw = reward_for(1, 1000 * (idx as u64 % 50) + n.blocks_made, fees);
+				let mut b = Block::new(&prev, &txs, Difficulty::from_num(100), rw).expect("header block");
+				b.header.timestamp = prev.timestamp + Duration::seconds(60);
+				b.header.pow.nonce = next_nonce();
+				if let Err(e) = n.chain.set_txhashset_roots(&mut b) {
+					mism.push(json!({"step": i, "what": "model_block_invalid_on_chain", "observed": format!("{:?}", e), "block": atoms}));
+					obs_steps.push(o);
+					break;
+				}
+				match n.chain.process_block_header(&b.header, Options::SKIP_POW) {
+					Ok(()) => {}
+					Err(e) => {
+						mism.push(json!({"step": i, "what": "model_block_rejected_by_chain", "observed": format!("header:{:?}", e), "block": atoms}));
+						obs_steps.push(o);
+						break;
+					}
+				}
+				let hh = n.chain.header_head().unwrap().height;
+				let bh = n.chain.head().unwrap().height;
+				o["header_head"] = json!(hh);
+				if hh != bh + 1 {
+					mism.push(json!({"step": i, "what": "harness_header_not_ahead", "observed": [hh, bh]}));
+				}
+				n.pending = Some((atoms, b));
+				if diverged.is_none() {
+					compare_pools(&w, &n, &s["proj"], i, &mut mism);
+				}
+			}
 			"Connect" | "Reorg" => {
 				let d = s["d"].as_u64().unwrap_or(0);
 				let bs = sets_of(&s["bs"]);
@@ -727,29 +811,47 @@ fn replay_one(beh: &Value, work: &str, idx: usize) -> Value {
 					};
 					let txs: Vec<Transaction> = atoms.iter().map(|a| w.txs[a].clone()).collect();
 					let fees: u64 = txs.iter().map(|t| t.fee()).sum();
-					n.blocks_made += 1;
-					let rw = reward_for(1, 1000 * (idx as u64 % 50) + n.blocks_made, fees);
-					let mut b = match Block::new(&prev, &txs, Difficulty::from_num(diff), rw) {
-						Ok(b) => b,
-						Err(e) => {
-							mism.push(json!({"step": i, "what": "model_block_unbuildable", "observed": format!("{:?}", e), "block": atoms}));
+					let announced = match n.pending.take() {
+						Some((pa, pb)) if k == "Connect" && pa == *atoms => Some(pb),
+						Some(_) => {
+							mism.push(json!({"step": i, "what": "harness_pending_header_mismatch", "block": atoms}));
 							failed = true;
 							break;
 						}
+						None => None,
 					};
-					b.header.timestamp = prev.timestamp + Duration::seconds(60);
-					if let Err(e) = n.chain.set_txhashset_roots(&mut b) {
-						mism.push(json!({"step": i, "what": "model_block_invalid_on_chain", "observed": format!("{:?}", e), "block": atoms}));
-						failed = true;
-						break;
-					}
+					let b = if let Some(pb) = announced {
+						pb // the body of the block whose header was delivered first
+					} else {
+						n.blocks_made += 1;
+						let rw = reward_for(1, 1000 * (idx as u64 % 50) + n.blocks_made, fees);
+						let mut b = match Block::new(&prev, &txs, Difficulty::from_num(diff), rw) {
+							Ok(b) => b,
+							Err(e) => {
+								mism.push(json!({"step": i, "what": "model_block_unbuildable", "observed": format!("{:?}", e), "block": atoms}));
+								failed = true;
+								break;
+							}
+						};
+						b.header.timestamp = prev.timestamp + Duration::seconds(60);
+						b.header.pow.nonce = next_nonce();
+						if let Err(e) = n.chain.set_txhashset_roots(&mut b) {
+							mism.push(json!({"step": i, "what": "model_block_invalid_on_chain", "observed": format!("{:?}", e), "block": atoms}));
+							failed = true;
+							break;
+						}
+						b
+					};
 					n.rec.log.lock().unwrap().clear();
 					if let Err(e) = n.chain.process_block(b.clone(), Options::SKIP_POW) {
 						mism.push(json!({"step": i, "what": "model_block_rejected_by_chain", "observed": format!("{:?}", e), "block": atoms}));
 						failed = true;
 						break;
 					}
-					let _ = n.twin.process_block(b.clone(), Options::SKIP_POW);
+					let tr = n.twin.process_block(b.clone(), Options::SKIP_POW);
+					if std::env::var("VERIF_DEBUG").is_ok() {
+						eprintln!("real block h={} diff={} total={} twin result {:?}", b.header.height, diff, b.header.total_difficulty().to_num(), tr.map(|x| x.map(|y| y.height)));
+					}
 					let st = n.rec.log.lock().unwrap().last().map(|x| x.1.clone()).unwrap_or("none".into());
 					statuses.push(st.clone());
 					// --- the pool part of ChainToPoolAndNetAdapter::block_accepted ---
